@@ -187,6 +187,7 @@ def run_scenario(sc, chooser, eager=('writer',), max_steps=6000, probe=True, fin
             r.final_available = False
         r.queue_log = list(env.queues[0].log) if env.queues else []
         r.sent = list(env.sock.sent)
+        r.wire = list(env.sock.wire)
         r.pending_chunks = len(env.sock.chunks)
         r.n_events = len(S.events)
         # after quiescence: one listener call per item from the controller thread (not scheduled)
@@ -796,6 +797,15 @@ def oracle_c16(r, F):
         # prefix property while the connection is up
         if lines != want[:len(lines)]:
             out.append(('written lines are not a prefix of the submitted messages', {'kind': 'reordered'}))
+        # after a failing write: what reached the wire is the complete lines written before it plus at most a fragment of
+        # the line whose write failed — never that fragment followed by anything else
+        wire_b = b''.join(getattr(r, 'wire', r.sent))
+        whole = b''.join(l + b'\r\n' for l in lines)
+        rest = wire_b[len(whole):] if wire_b.startswith(whole) else None
+        nxt = (want[len(lines)] + b'\r\n') if len(lines) < len(want) else b''
+        if rest is None or not nxt.startswith(rest):
+            out.append(('after a failed write the wire holds %r after the complete lines: not a fragment of the line being written'
+                        % ((rest if rest is not None else wire_b)[:60],), {'kind': 'torn_line'}))
     # per-thread order
     by_thread = collections.defaultdict(list)
     for step, th, m in puts:
